@@ -111,7 +111,7 @@ fn arb_fault12() -> BoxedStrategy<Fault> {
     .boxed()
 }
 
-fn arb_case() -> BoxedStrategy<Case> {
+pub fn arb_case() -> BoxedStrategy<Case> {
     let cfg = GenCfg { utf8: true, max_big: 4097, max_children: 5 };
     ((0u32..=3).prop_flat_map(move |d| (arb_item(d, cfg), arb_fault12())), arb_sched(), 0u8..24)
         .prop_map(|((item, fault), sched, sentinel)| Case { base: FaultCase { src: Src::Valid { item, fault } }, sched, sentinel })
